@@ -326,7 +326,7 @@ def main(run):
         states += res.distinct
         trans += res.generated
     caught = []
-    for m in ('doneOnly', 'firstCompleted'):
+    for m in ('doneOnly', 'firstCompleted', 'threadDone'):
         tlc.check_design('SnapshotPipe', 'mut.cfg', cfg_text=sp.replace('Mutant = "none"', 'Mutant = "%s"' % m), expect_violation='CommitComplete')
         caught.append(m)
     tlc.check_design('SnapshotPipe', 'mut.cfg', cfg_text=sp.replace('Mutant = "none"', 'Mutant = "abortUnseenWhenFull"').replace('N = 2', 'N = 1').replace('QCap = 2', 'QCap = 1'), expect_violation=True)
